@@ -8,7 +8,7 @@ from ..cfg import CFG
 from ..core import Ctx, UNDECIDED, VIOLATED
 from ..model import norm, walk_no_nested
 from . import ilp, nbk
-from .common import enclosing, prog
+from .common import conditions_at, enclosing, prog
 
 FN = "Continuum.get_best_alignment"
 
@@ -60,6 +60,22 @@ def rule_nullable_index(ctx: Ctx, rule: str, roots, scope_note: str):
             ctx.check(guarded, rule, f, c, f"label lookup `{norm(c)}` is reached only when the label is not None ({scope_note}; via {' -> '.join(path[-3:])})",
                       bad_detail=f"`{norm(c)}`: an unlabelled unit (annotation None) reaches .index(): ValueError 'None is not in list' "
                                  f"({scope_note}; reached via {' -> '.join(path)})", key=f"index({T})")
+            if guarded and f.self_name:
+                # the label-None path may refuse (raise) only for a dissimilarity that has a category table: with `self.categories is None`
+                # (every default dissimilarity) it must come back with an index
+                sn = f.self_name
+                for r in [x for x in walk_no_nested(f.node) if isinstance(x, ast.Raise)]:
+                    conds = conditions_at(f.node, r)
+                    on_none = any((isinstance(t, ast.Compare) and len(t.ops) == 1 and norm(t.left) == T and isinstance(t.comparators[0], ast.Constant)
+                                   and t.comparators[0].value is None and isinstance(t.ops[0], ast.Is if pol else ast.IsNot)) for t, pol in conds)
+                    if not on_none:
+                        continue
+                    has_table = any((isinstance(t, ast.Compare) and len(t.ops) == 1 and norm(t.left) == f"{sn}.categories" and isinstance(t.comparators[0], ast.Constant)
+                                     and t.comparators[0].value is None and isinstance(t.ops[0], ast.IsNot if pol else ast.Is)) for t, pol in conds)
+                    n += 1
+                    ctx.check(has_table, rule, f, r, "an unlabelled unit is refused only by a dissimilarity defined over a category table (self.categories is not None)",
+                              bad_detail=f"{f.qualname} raises for an unlabelled unit without requiring `{sn}.categories is not None`: the dissimilarities that have no category "
+                                         f"table (the defaults) no longer align unlabelled units ({scope_note})", key=f"refusal({T})")
     return n
 
 
